@@ -148,6 +148,8 @@ class PyMachine:
                     emu.press_key("KEY_ON")
                 else:
                     emu.release_key("KEY_ON")
+            elif k == "pyreset":
+                emu.reset()           # a second reset of an emulator that has already run (Python model only)
             elif k == "wimem":
                 emu.memory.write_byte(IMEM + op[1], op[2])
             elif k == "imem_or":
@@ -178,6 +180,8 @@ def rust_script(script, key_codes):
         k = op[0]
         if k in ("press", "release"):
             ops.append([k, key_codes[op[1]]])
+        elif k == "pyreset":
+            continue
         else:
             ops.append(list(op))
     return ops
@@ -205,7 +209,7 @@ def run_rust(scenarios_scripts, key_codes, obs_lcd=False, timeout=900, obs_full=
         rr = rust.run("rt", payload, timeout=timeout)
     outs = []
     for (scen, script), r in zip(scenarios_scripts, rr):
-        obs = [o for op, o in zip(script, r["out"]) if op[0] in ("step", "obs")]
+        obs = [o for op, o in zip([x for x in script if x[0] != "pyreset"], r["out"]) if op[0] in ("step", "obs")]
         outs.append((obs, r.get("error"), r["out"]))
     if valgrind:
         return outs, rep
